@@ -159,7 +159,62 @@ func ruleC17ErrFlow(c *Ctx, r *Result) {
 		}
 	}
 	r.Floor("C17.2", 600)
+	r.ApplyBaseline(verifDirGlobal, "C17.3", "short-read", shortReads)
+	shortReads = map[string][]undecidedItem{}
 }
 
-// checkShortRead is filled in by the index/bounds engine (C17.3).
-var checkShortRead = func(c *Ctx, r *Result, s *ErrSite) {}
+// shortReads collects, per function, EOF-tolerating reads whose byte count is not shown to cover the buffer.
+var shortReads = map[string][]undecidedItem{}
+
+// checkShortRead (C17.3): after `n, err := r.ReadAt(buf, off)` with io.EOF tolerated, the code must establish
+// n >= len(buf) (or return an error) before it goes on; proven with the bounds prover on the continuing edge.
+func checkShortRead(c *Ctx, r *Result, s *ErrSite) {
+	call, ok := s.Call.(*ssa.Call)
+	if !ok || len(call.Call.Args) < 1 {
+		return
+	}
+	fn := s.Caller
+	name := c.Name(fn)
+	pos := c.InstrPos(call)
+	var nVal ssa.Value
+	for _, ref := range *call.Referrers() {
+		if ex, ok := ref.(*ssa.Extract); ok && ex.Index == 0 {
+			nVal = ex
+		}
+	}
+	// buffer argument: first argument of ReadAt (after receiver for invoke calls the args exclude the receiver)
+	buf := call.Call.Args[0]
+	if !call.Call.IsInvoke() && len(call.Call.Args) >= 2 {
+		buf = call.Call.Args[1]
+	}
+	if nVal == nil || len(*nVal.Referrers()) == 0 {
+		shortReads[name] = append(shortReads[name], undecidedItem{pos, "io.EOF is tolerated but the byte count is never looked at: a short read continues with a partly filled buffer"})
+		return
+	}
+	fb := c.FB(fn)
+	need := fb.lenLin(buf)
+	// every block that uses the buffer after the call must know n >= len(buf)
+	okAll := true
+	uses := 0
+	for _, ref := range *buf.Referrers() {
+		in, ok := ref.(ssa.Instruction)
+		if !ok || in == ssa.Instruction(call) || !canReach(call, in) {
+			continue
+		}
+		if _, isRel := in.(*ssa.Defer); isRel {
+			continue
+		}
+		if cc, isCall := in.(*ssa.Call); isCall && strings.HasSuffix(c.calleeName(cc), "ReleaseBuffer") {
+			continue
+		}
+		uses++
+		if !fb.prove(fb.lin(nVal).add(need, -1), fb.blockFacts(in.Block()), 3) {
+			okAll = false
+		}
+	}
+	if okAll && uses > 0 {
+		r.Hold("C17.3", name+"#short-read-complete", pos, "every use of the buffer after the read is dominated by n >= len(buffer)")
+	} else {
+		shortReads[name] = append(shortReads[name], undecidedItem{pos, "io.EOF is tolerated and the test on the byte count does not imply n >= len(buffer): bytes beyond n stay zero and are parsed as if read"})
+	}
+}
